@@ -325,7 +325,7 @@ def run(tier, seed):
                 continue
             seen.add(k)
             rep.violation(f["what"][:400], f, tags=f["tag"])
-    else:
+    if not unknown_ofail:
         if not ok:
             rep.violation("proof obligations of C07 no longer check", {"broken_theorems": info["failed"], "lean_output": info["output"][-3000:]}, nofail=True)
         elif kdis:
